@@ -173,7 +173,9 @@ func init() {
 			return "<duration>"
 		},
 
-		// ---- strconv fast paths are in fastpath()
+		"(net/netip.Prefix).String": extPrefixString,
+		"(net/netip.Addr).String":   extAddrString,
+
 
 		// ---- os / misc
 		"os.Getenv":    func(fr *frame, a []value) value { return "" },
@@ -526,6 +528,9 @@ func timeSub(i *interpreter, a, b value) value {
 
 func extTimeNow(fr *frame, a []value) value {
 	i := fr.i
+	if i.hasFixedClock {
+		return mkTime(i.fixedClock)
+	}
 	n := i.newNondet(types.Int64, "clock")
 	t := i.term(n)
 	lo := i.tc.Const(SBV64, 1)
@@ -893,4 +898,60 @@ func extErrorf(fr *frame, a []value) value {
 		cell := value(structure{msg, wrapped})
 		return iface{t: types.NewPointer(t), v: &cell}
 	}
+}
+
+// ---- netip: String of a symbolic address/prefix is an abstract injective token
+// (family marker, 16 address bytes, prefix length): only equality is meaningful.
+
+func addrTokenBytes(i *interpreter, addr structure) ([]value, bool) {
+	u := addr[0].(structure) // uint128{hi, lo}
+	hi, lo := u[0], u[1]
+	if !isSym(hi) && !isSym(lo) {
+		return nil, false
+	}
+	var out []value
+	for _, w := range []value{hi, lo} {
+		t := i.term(w)
+		for k := 7; k >= 0; k-- {
+			out = append(out, unterm(i.tc.Mk(fmt.Sprintf("extract:%d:%d", k*8+7, k*8), SBV8, t), types.Uint8))
+		}
+	}
+	return out, true
+}
+
+func extAddrString(fr *frame, a []value) value {
+	i := fr.i
+	addr := a[0].(structure)
+	bs, sym := addrTokenBytes(i, addr)
+	if !sym {
+		return callSSANoExt(i, fr, fr.fn, a)
+	}
+	z := addr[1].(structure)[0].(*value)
+	tag := fmt.Sprintf("\x00A%p:", z)
+	return mkStr(append(strBytes(tag), bs...))
+}
+
+func extPrefixString(fr *frame, a []value) value {
+	i := fr.i
+	p := a[0].(structure) // Prefix{ip Addr, bitsPlusOne uint8}
+	addr := p[0].(structure)
+	bs, sym := addrTokenBytes(i, addr)
+	if !sym && !isSym(p[1]) {
+		return callSSANoExt(i, fr, fr.fn, a)
+	}
+	if !sym {
+		u := addr[0].(structure)
+		bs = nil
+		for _, w := range []value{u[0], u[1]} {
+			v := w.(uint64)
+			for k := 7; k >= 0; k-- {
+				bs = append(bs, uint8(v>>(uint(k)*8)))
+			}
+		}
+	}
+	z := addr[1].(structure)[0].(*value)
+	tag := fmt.Sprintf("\x00P%p:", z)
+	out := append(strBytes(tag), bs...)
+	out = append(out, p[1])
+	return mkStr(out)
 }
